@@ -185,7 +185,7 @@ FuzzEnd ==
   /\ Is("fuzz.end") /\ Adv
   /\ LET s == Summary
          lbl == "fuzz" \o ToString(fz.j)
-     IN /\ viol' = viol \cup If(Ev.status # s.verdict, "status_mismatch") \cup If(~Ev.completed /\ Ev.status = "passed", "fuzz_crashed")
+     IN /\ viol' = viol \cup If(Ev.status # s.verdict, "status_mismatch") \cup If((~Ev.completed /\ Ev.status = "passed") \/ Ev.status = "crashed", "fuzz_crashed")
                         \cup V_Rel(lbl, s)
         /\ res' = [x \in DOMAIN res \cup {lbl} |-> IF x = lbl THEN s ELSE res[x]]
   /\ fz' = NoFz /\ obs' = NoObs
